@@ -5,6 +5,13 @@
 #ifndef CV_OFFSET_ENV_H
 #define CV_OFFSET_ENV_H
 #include "int64_env.h"
+#ifdef CV_NATIVE_REPLAY
+#include <climits>
+#include <cstdlib>
+#include <cassert>
+#undef debugs
+#define debugs(SECTION, LEVEL, CONTENT) ((void)0)
+#else
 #define LLONG_MAX 9223372036854775807LL
 #define LLONG_MIN (-9223372036854775807LL - 1)
 #define debugs(SECTION, LEVEL, CONTENT) ((void)0)
@@ -12,4 +19,5 @@ extern "C" void cv_assert_fail(void);
 #define assert(EX) ((EX) ? (void)0 : cv_assert_fail())
 extern "C" long long strtoll(const char *nptr, char **endptr, int base);
 extern "C" int atoi(const char *nptr);
+#endif
 #endif
